@@ -5,7 +5,7 @@ from props import c09
 
 
 def knobs(r, i):
-    return {"cancelable": False, "threads": 1 + i % 3, "exits": i % 2 == 0, "cycle_density": i % 4, "multi": i % 3 == 0, "unwinds": i % 4 == 1, "stepped": i % 3 == 2}
+    return {"cancelable": False, "threads": 1 + i % 3, "exits": i % 2 == 0, "cycle_density": i % 4, "multi": i % 3 == 0, "unwinds": i % 4 == 1, "stepped": i % 3 == 2, "stepped_flush": True}
 
 
 def run(v, tier, seed, replay):
